@@ -24,7 +24,7 @@ def job_qr(n):
         Q = [[toR(p.st.load(out + 8 * (i * n + j), 8, True)) for j in range(n)] for i in range(n)]
         R = [[toR(p.st.load(out + 8 * (n * n + i * n + j), 8, True)) for j in range(n)] for i in range(n)]
         hyp = alg_assumptions(p.st)
-        T = 60000 if n <= 2 else 300000
+        T = 60000 if n <= 2 else 20000      # n = 3: most identities over three nested square-root witnesses are beyond nlsat within minutes; short budget, undecided is reported as such
         res += divisor_obligations(tag, p.st, model_vars=mv, key='C15/qr/division-by-zero', timeout_ms=T, tactic='nra')
         for i in range(n):
             for j in range(n):
